@@ -14,7 +14,7 @@ RULE = ("seeded gen_coords runs over generated topologies (1-3 molecule types: s
         "(schedule signature, event-log digest)")
 ASSUMPTIONS = wa.ASSUMPTIONS
 REAL_VS_STUB = wa.REAL_VS_STUB
-PROBES = wa.PROBES + ["cwd_with_decoy_includes", "earlier_call_same_topology_paths", "user_grid", "start_option", "coords_supplied", "density_box", "build_file", "include_in_ifdef_else"]
+PROBES = wa.PROBES + ["cwd_with_decoy_includes", "earlier_call_same_topology_paths", "user_grid", "start_option", "coords_supplied", "density_box", "build_file", "include_in_ifdef_else", "resid_restart_inside_molecule"]
 PROFILE = {}
 
 
@@ -27,6 +27,8 @@ def gen_job(verif_seed, tier, index):
     g = st.gen
     if g.random() < 0.12:
         jobgen.add_list_order(job, g)          # before any coordinates are derived from the topology order
+    elif g.random() < 0.1:
+        jobgen.add_resid_restart(job, g)       # residue numbers that start again inside a molecule type
     r = g.random()
     if r < 0.1 and len(job["spec"]["restypes"]) >= 2 and not job.get("list_order"):
         # kept residues in the middle of a rebuilt chain + step failures: rewinds pass over supplied residues
@@ -65,6 +67,8 @@ def _tag(job, res):
         p["user_grid"] = 1
     if job["opts"].get("start"):
         p["start_option"] = 1
+    if job.get("resid_restart"):
+        p["resid_restart_inside_molecule"] = 1
     if job["spec"].get("cond_include"):
         p["include_in_ifdef_else"] = 1
     if job.get("coord_text") is not None:
